@@ -313,15 +313,21 @@ func runCheck(repo, root, prop, tier string, seed int) *CheckResult {
 			if o.Query == "" {
 				o.Query = o.BuildQuery()
 			}
-			r := discharge(work, o.Name, o.Query, timeout, seed)
-			if r.Status != "unsat" && r.Status != "sat" && r.Status != "error" {
-				// undecided: if the quantifier-free relaxation has a model the obligation is most likely
-				// falsifiable (the replay decides); otherwise retry once, longer, with another seed
-				if m, _ := cexModel(o, work, seed); m == nil {
-					r2 := discharge(work, o.Name+".retry", o.Query, timeout*3, seed+17)
-					if r2.Status == "unsat" || r2.Status == "sat" {
-						r = r2
-					}
+			// attempt ladder: the solvers' default configuration first (deterministic), then two other random seeds
+			// (VERIF_SEED-derived). `unsat` under any configuration discharges; only an attempt's own `sat` fails at once.
+			s2 := seed
+			if s2 == 0 {
+				s2 = 7
+			}
+			r := discharge(work, o.Name, o.Query, timeout, 0)
+			for _, at := range []struct{ seed, t int }{{s2, timeout}, {s2 + 17, timeout * 2}} {
+				if r.Status == "unsat" || r.Status == "sat" || r.Status == "error" {
+					break
+				}
+				r2 := discharge(work, fmt.Sprintf("%s.retry%d", o.Name, at.seed), o.Query, at.t, at.seed)
+				if r2.Status == "unsat" || r2.Status == "sat" {
+					r2.Solver += fmt.Sprintf(" (retry, seed %d)", at.seed)
+					r = r2
 				}
 			}
 			o.Result = &r
@@ -461,7 +467,22 @@ func writeEvidence(root string, r *CheckResult) {
 		}
 	}
 	level := "proof"
+	slow := append([]oblReport{}, r.Reports...)
+	sort.Slice(slow, func(i, j int) bool { return slow[i].Ms > slow[j].Ms })
+	if len(slow) > 25 {
+		slow = slow[:25]
+	}
+	var slowest []string
+	for _, x := range slow {
+		slowest = append(slowest, fmt.Sprintf("%dms %s [%s]", x.Ms, x.Name, x.Solver))
+	}
+	byBackend := map[string]int{}
+	for _, x := range r.Reports {
+		byBackend[x.Solver]++
+	}
 	cov := map[string]interface{}{
+		"slowest_obligations": slowest,
+		"discharged_by_backend": byBackend,
 		"obligations":   r.Obligations,
 		"discharged":    r.Discharged,
 		"checker_cmd":   fmt.Sprintf("bin/govc check --property %s --tier %s  (VC generator over go/ssa of /repo's working tree; obligations raced on z3-new 5.1.0, z3 4.8.12, cvc5 1.0.3; first unsat discharges)", r.Property, r.Tier),
